@@ -118,6 +118,19 @@ Theorem C16_toInt_toByte :
 Proof. exact toInt_toByte. Qed.
 Print Assumptions C16_toInt_toByte.
 
+(* WOTS+ checksum (Algorithm 7 lines 3-8): what follows the message digits is
+   exactly len2 digits below w whose base-w value is sum_i (w-1-msg_i) — the
+   left shift, toByte and base_2^b lose nothing; the premises hold for all
+   twelve sets (C16_parameter_sets_wellformed) *)
+Theorem C16_wots_checksum_digits :
+  forall P, (1 <= p_lgw P <= 25)%nat -> (p_len2 P * p_lgw P <= 32)%nat -> forall msg,
+    exists cs, wotsChecksum P msg = base2b msg (p_lgw P) (p_len1 P) ++ cs
+      /\ length cs = p_len2 P
+      /\ Forall (fun d => d < 2 ^ N.of_nat (p_lgw P)) cs
+      /\ digits_val (p_lgw P) cs = csum_spec P (base2b msg (p_lgw P) (p_len1 P)).
+Proof. exact wotsChecksum_value. Qed.
+Print Assumptions C16_wots_checksum_digits.
+
 (* === the layers, as coded (mutable address included) ==================== *)
 
 Theorem C16_chain_compose :
@@ -189,10 +202,18 @@ Proof.
 Qed.
 Print Assumptions C16_threaded_equals_fips_shape.
 
+(* verifyInternal is Algorithm 20 on the FIPS-shaped functions: length check,
+   split, digest, FORS public key from the signature, hypertree verification *)
+Theorem C16_verifyInternal_fips_shape :
+  forall P HS pkSeed pkRoot msg sig,
+    verifyInternal P HS pkSeed pkRoot msg sig = verifyInternalS P HS pkSeed pkRoot msg sig.
+Proof. exact verifyInternal_fips. Qed.
+Print Assumptions C16_verifyInternal_fips_shape.
+
 (* === the parameter sets ================================================= *)
 
-(* all twelve sets: h = d*hp, d >= 1, n <= 32, h-hp <= 64, hp < 32, lgw >= 1,
-   m = ceil(k*a/8) + ceil((h-hp)/8) + ceil(hp/8) *)
+(* all twelve sets: h = d*hp, d >= 1, n <= 32, h-hp <= 64, hp < 32, 1 <= lgw <= 25,
+   len2*lgw <= 32, a <= 25, m = ceil(k*a/8) + ceil((h-hp)/8) + ceil(hp/8) *)
 Theorem C16_parameter_sets_wellformed : forallb set_ok all_sets = true.
 Proof. exact all_sets_ok. Qed.
 Print Assumptions C16_parameter_sets_wellformed.
